@@ -142,6 +142,44 @@ fn sweep(name: &str, len: usize, alphabet: &[u8], first: &[u8], threads: usize, 
     }
 }
 
+/// Longer strings: ASCII filler with one or two boundary bytes at every position, for every length up to `maxlen` and every start
+/// alignment 0..8 inside an 8-aligned buffer (word-at-a-time fast paths depend on length and alignment, not only on content).
+fn align_sweep(r: &mut Utf8Result, maxlen: usize) {
+    let mut backing = vec![0u64; maxlen / 8 + 4];
+    let base = backing.as_mut_ptr() as *mut u8;
+    let (mut ev, mut va) = (0u64, 0u64);
+    for align in 0..8usize {
+        for len in 1..=maxlen {
+            let buf = unsafe { std::slice::from_raw_parts_mut(base.add(align), len) };
+            for filler in [b'a', 0x7Fu8] {
+                for pos in 0..len {
+                    for &b1 in BOUNDARY.iter() {
+                        buf.fill(filler);
+                        buf[pos] = b1;
+                        ev += 1;
+                        if !check_one(buf, &mut va) && r.mismatch.is_none() {
+                            r.mismatch = Some(buf.to_vec());
+                        }
+                        if pos + 1 < len && filler == b'a' {
+                            for &b2 in BOUNDARY.iter() {
+                                buf[pos + 1] = b2;
+                                ev += 1;
+                                if !check_one(buf, &mut va) && r.mismatch.is_none() {
+                                    r.mismatch = Some(buf.to_vec());
+                                }
+                            }
+                            buf[pos + 1] = filler;
+                        }
+                    }
+                }
+            }
+        }
+    }
+    r.evaluated += ev;
+    r.valid += va;
+    r.blocks.push((format!("lengths 1..={maxlen} x start alignment 0..8: ASCII filler with 1-2 boundary bytes at every position"), ev, va));
+}
+
 pub fn utf8(thorough: bool, threads: usize) -> Utf8Result {
     let all: Vec<u8> = (0..=255u8).collect();
     let mut r = Utf8Result { evaluated: 0, valid: 0, mismatch: None, blocks: vec![] };
@@ -151,6 +189,7 @@ pub fn utf8(thorough: bool, threads: usize) -> Utf8Result {
     let lead4: Vec<u8> = (0xF0..=0xF7u8).collect();
     sweep("len 4, first byte F0..F7, rest all bytes", 4, &all, &lead4, threads, &mut r);
     sweep("len 5 over 24-byte boundary alphabet", 5, &BOUNDARY, &BOUNDARY, threads, &mut r);
+    align_sweep(&mut r, if thorough { 40 } else { 24 });
     if thorough {
         sweep("len 6 over 24-byte boundary alphabet", 6, &BOUNDARY, &BOUNDARY, threads, &mut r);
         sweep("len 7 over 12-byte boundary alphabet", 7, &[0x00, 0x7F, 0x80, 0xBF, 0xC2, 0xE0, 0xA0, 0xED, 0x9F, 0xF0, 0x90, 0xF4], &BOUNDARY, threads, &mut r);
@@ -312,6 +351,41 @@ fn views_for<T: Elem>(maxlen: usize, r: &mut ViewResult) {
                 let v2: DiplomatOwnedSlice<T> = back.into();
                 drop(v2);
                 cases += 1;
+            }
+        }
+    }
+    // --- every sub-range (including the empty ones, whose pointer is NOT dangling) of a live buffer
+    {
+        let n = maxlen.min(6);
+        let mut live: Vec<T> = (0..n).map(T::val).collect();
+        for a in 0..=n {
+            for b in a..=n {
+                let want_ptr = unsafe { live.as_ptr().add(a) } as usize;
+                {
+                    let s: &[T] = &live[a..b];
+                    let v: DiplomatSlice<T> = s.into();
+                    let back: &[T] = v.into();
+                    if back.as_ptr() as usize != want_ptr || back.len() != b - a {
+                        fail(format!("&[T] sub-range [{a}..{b}]: round trip ({:#x},{}) != ({want_ptr:#x},{})", back.as_ptr() as usize, back.len(), b - a));
+                    }
+                    let d: &[T] = &*v;
+                    if d.as_ptr() as usize != want_ptr || d.len() != b - a {
+                        fail(format!("&[T] sub-range [{a}..{b}]: deref differs"));
+                    }
+                }
+                {
+                    let s: &mut [T] = &mut live[a..b];
+                    let mut v: DiplomatSliceMut<T> = s.into();
+                    let (dp, dl) = { let d: &mut [T] = &mut *v; (d.as_mut_ptr() as usize, d.len()) };
+                    if dp != want_ptr || dl != b - a {
+                        fail(format!("&mut [T] sub-range [{a}..{b}]: deref_mut ({dp:#x},{dl}) != ({want_ptr:#x},{})", b - a));
+                    }
+                    let back: &mut [T] = v.into();
+                    if back.as_mut_ptr() as usize != want_ptr || back.len() != b - a {
+                        fail(format!("&mut [T] sub-range [{a}..{b}]: round trip ({:#x},{}) != ({want_ptr:#x},{})", back.as_mut_ptr() as usize, back.len(), b - a));
+                    }
+                }
+                cases += 2;
             }
         }
     }
